@@ -1573,8 +1573,10 @@ func (b *builder) switchStmt(fn *Function, s *ast.SwitchStmt, label *lblock) {
 		b.stmt(fn, s.Init)
 	}
 
-	entry := fn.currentBlock
 	tag := b.expr(fn, s.Tag)
+	// Lowering the tag may open new blocks (a && b, a || b); the switch is
+	// emitted in the block that is current afterwards.
+	entry := fn.currentBlock
 
 	heads := make([]*BasicBlock, 0, len(s.Body.List))
 	bodies := make([]*BasicBlock, len(s.Body.List))
